@@ -114,7 +114,7 @@ theorem C09_params_exact (matchPat : Matcher Pat) (app : App Pat) (req : Req)
     rw [h2, map_capValue_capsOf]
     simp
   · intro pre s post e
-    have := (walk_matches h.1 pre s post e).1
+    have := walk_matches h.1 pre s post e
     simpa [St.init] using this
 
 /-- **C09_data_innermost**: the containers visible to the handler are the app's and those of the
@@ -153,13 +153,26 @@ theorem C09_data_app (matchPat : Matcher Pat) (app : App Pat) (req : Req)
   rw [hp]
   cases app.data <;> simp
 
+/-- **C09_guard_data**: application data read *by a guard* (`GuardContext::app_data`, i.e.
+`ServiceRequest::app_data`) also resolves to the innermost registration: the guards of every
+service on the chosen path accepted the request as seen with the innermost marker among the app's
+container and those of the services entered before it.  (The guards of the answering route see, in
+addition, the resource's own container: `C09_handler` with `Req.seen` of the final state, whose
+data `C09_data_innermost` describes.) -/
+theorem C09_guard_data (matchPat : Matcher Pat) (app : App Pat) (req : Req)
+    (steps : List (Step Pat)) (st' : St) (h : ChosenPath matchPat app req steps st')
+    (pre : List (Step Pat)) (s : Step Pat) (post : List (Step Pat)) (hs : steps = pre ++ s :: post) :
+    GuardsOk { req with data := (app.data.toList ++ pre.filterMap (·.node.data)).getLast? }
+      s.node.guards := by
+  simpa [St.init] using walk_guards h.1 pre s post hs
+
 /-- **C09_handler**: a handler answers iff the chosen path ends in a resource and it is the handler
 of that resource's first route whose guards accept. -/
 theorem C09_handler (matchPat : Matcher Pat) (app : App Pat) (req : Req)
     (steps : List (Step Pat)) (st' : St) (h : ChosenPath matchPat app req steps st') (hid : Nat) :
     (routeApp matchPat app req).target = .handler hid ↔
       ∃ s pat gs data routes dflt, steps.getLast? = some s ∧
-        s.node = .resource pat gs data routes dflt ∧ firstRoute req routes = some hid := by
+        s.node = .resource pat gs data routes dflt ∧ firstRoute (req.seen (routeApp matchPat app req).st) routes = some hid := by
   obtain ⟨_, he⟩ := C09_chosen_ends h
   unfold Ends finalLevel at he
   constructor
@@ -183,7 +196,7 @@ theorem C09_handler (matchPat : Matcher Pat) (app : App Pat) (req : Req)
         simp only [Node.level] at he
         refine ⟨s, pat, gs, data, routes, dflt, rfl, hn, ?_⟩
         rw [ht] at he
-        cases hf : firstRoute req routes with
+        cases hf : firstRoute (req.seen (routeApp matchPat app req).st) routes with
         | some h' => rw [hf] at he; simp at he; rw [he]
         | none =>
           rw [hf] at he
@@ -215,7 +228,7 @@ theorem C09_default_nearest (matchPat : Matcher Pat) (app : App Pat) (req : Req)
   | res routes =>
     rw [hl] at he
     simp only at he
-    cases hf : firstRoute req routes with
+    cases hf : firstRoute (req.seen (routeApp matchPat app req).st) routes with
     | some h' => rw [hf] at he; exact absurd he (hnot h')
     | none => rw [hf] at he; exact he
   | sc ch =>
@@ -258,7 +271,7 @@ theorem C09_405 (matchPat : Matcher Pat) (app : App Pat) (req : Req)
     (steps : List (Step Pat)) (st' : St) (h : ChosenPath matchPat app req steps st') :
     (routeApp matchPat app req).target = .notAllowed ↔
       ∃ s pat gs data routes, steps.getLast? = some s ∧
-        s.node = .resource pat gs data routes none ∧ ∀ r ∈ routes, ¬ GuardsOk req r.guards := by
+        s.node = .resource pat gs data routes none ∧ ∀ r ∈ routes, ¬ GuardsOk (req.seen (routeApp matchPat app req).st) r.guards := by
   obtain ⟨_, he⟩ := C09_chosen_ends h
   unfold Ends finalLevel at he
   have hfb0 : effDefault app.dflt .notFound ≠ .notAllowed := by
@@ -280,7 +293,7 @@ theorem C09_405 (matchPat : Matcher Pat) (app : App Pat) (req : Req)
         rw [hn] at he
         simp only [Node.level] at he
         rw [ht] at he
-        cases hf : firstRoute req routes with
+        cases hf : firstRoute (req.seen (routeApp matchPat app req).st) routes with
         | some h' => rw [hf] at he; simp at he
         | none =>
           rw [hf] at he
@@ -358,7 +371,7 @@ mismatch makes the router pass on to later registrations instead of answering 40
 theorem C09_route_sugar (matchPat : Matcher Pat) (req : Req) (pat : Pat) (r : Route) (st : St)
     (inh : Target) :
     serve matchPat req (routeSugar pat r) st inh = ⟨.handler r.handler, st⟩ ∧
-    (¬ GuardsOk req r.guards → Rejects matchPat req (routeSugar pat r) st) := by
+    (¬ GuardsOk (req.seen st) r.guards → Rejects matchPat req (routeSugar pat r) st) := by
   constructor
   · simp [routeSugar, serve, firstRoute, evalAll]
   · intro hg len caps hm
@@ -376,12 +389,12 @@ theorem C09_dfs_first (matchPat : Matcher Pat) (app : App Pat) (req : Req)
     (s : Step Pat) (pat : Pat) (gs : List Guard) (data : Option Nat) (routes : List Route)
     (dflt : Option Nat) (k : Nat)
     (hl : steps.getLast? = some s) (hs : s.node = .resource pat gs data routes dflt)
-    (hk : firstRouteIdx req routes 0 = some k)
+    (hk : firstRouteIdx (req.seen st') routes 0 = some k)
     (c : List (Step Pat)) (st₂ : St) (t : Step Pat) (pat' : Pat) (gs' : List Guard)
     (data' : Option Nat) (routes' : List Route) (dflt' : Option Nat) (j : Nat) (r : Route)
     (hc : Chain matchPat req app.children (St.init app) c st₂)
     (hcl : c.getLast? = some t) (ht : t.node = .resource pat' gs' data' routes' dflt')
-    (hj : routes'[j]? = some r) (hr : GuardsOk req r.guards) :
+    (hj : routes'[j]? = some r) (hr : GuardsOk (req.seen st₂) r.guards) :
     LexLe (steps.map (·.idx) ++ [k]) (c.map (·.idx) ++ [j]) :=
   walk_dfs_minimal h.1 hc hl hcl hs ht hk hj hr
 
@@ -391,8 +404,9 @@ theorem C09_dfs_first_handler (matchPat : Matcher Pat) (app : App Pat) (req : Re
     (s : Step Pat) (pat : Pat) (gs : List Guard) (data : Option Nat) (routes : List Route)
     (dflt : Option Nat) (k : Nat)
     (hl : steps.getLast? = some s) (hs : s.node = .resource pat gs data routes dflt)
-    (hk : firstRouteIdx req routes 0 = some k) :
+    (hk : firstRouteIdx (req.seen st') routes 0 = some k) :
     ∃ r, routes[k]? = some r ∧ (routeApp matchPat app req).target = .handler r.handler := by
+  rw [(C09_chosen_ends h).1] at hk
   obtain ⟨r, hr, _, _, hf⟩ := firstRouteIdx_spec hk
   refine ⟨r, by simpa using hr, ?_⟩
   exact (C09_handler matchPat app req steps st' h r.handler).2 ⟨s, pat, gs, data, routes, dflt, hl, hs, hf⟩
